@@ -456,6 +456,13 @@ func indexParam(v ssa.Value, fn *ssa.Function) int {
 			v = x.X
 		case *ssa.Field:
 			v = x.X
+		case *ssa.Alloc:
+			// a, b := r[i], r[j]: a local copy initialised once
+			s := cellValue(x)
+			if s == nil {
+				return 0
+			}
+			v = s
 		case *ssa.IndexAddr:
 			for pi, p := range fn.Params {
 				if x.Index == ssa.Value(p) {
